@@ -54,9 +54,20 @@ theorem xz_single_stream_mode_stops (c : Xz.Check) (fs : List Xz.Filter) (hfs : 
 
 open LzipFile in
 theorem lzip_concatenation (ms : List (Nat × List Nat × List Nat)) (hne : ms ≠ []) (hm : ∀ m ∈ ms, MemberOk m)
-    (trailing : List Nat) (ht : trailing.take 4 ≠ Consts.LZIP_MAGIC) (cap : Nat) (hcap : (fileData ms).length ≤ cap) :
+    (trailing : List Nat) (ht : trailing.take 4 ≠ Consts.LZIP_MAGIC) (ht2 : TrailingOk trailing)
+    (cap : Nat) (hcap : (fileData ms).length ≤ cap) :
     decode (fileBytes ms ++ trailing) cap =
       .ok (fileData ms) ((fileBytes ms).length + min 4 trailing.length) (fileRecs ms) :=
-  lzip_roundtrip_recs ms hne hm trailing ht cap hcap
+  lzip_roundtrip_recs ms hne hm trailing ht ht2 cap hcap
+
+open LzipFile in
+/-- trailing data that is a fragment (non-empty proper prefix) of the magic is NOT ignored: the file is reported as
+    truncated inside a further member's header -/
+theorem lzip_magic_fragment_is_eof (ms : List (Nat × List Nat × List Nat)) (hne : ms ≠ []) (hm : ∀ m ∈ ms, MemberOk m)
+    (frag : List Nat) (hf : frag ≠ []) (ht : frag.take 4 ≠ Consts.LZIP_MAGIC)
+    (hp : (frag.take 4).isPrefixOf Consts.LZIP_MAGIC = true) (cap : Nat) (hcap : (fileData ms).length ≤ cap) :
+    decode (fileBytes ms ++ frag) cap = .err .eof := by
+  rw [decode_after_members ms hne hm _ _ hcap]
+  exact members_magic_fragment _ _ _ _ _ _ hf ht hp
 
 end LzmaVerif.Props.C12
